@@ -21,6 +21,10 @@ let bytes_of_hex (s : string) : n list =
 let numlist (s : string) : nat list =
   if s = "-" then [] else List.map (fun x -> big_nat (int_of_string ("0x" ^ x))) (String.split_on_char ',' s)
 
+(* outcomes of the dictated read() calls: a hex length, or i = interrupted (-1 / EINTR) *)
+let oracle_of (s : string) : outcome list =
+  if s = "-" then [] else List.map (fun x -> if x = "i" then Interrupted else Bytes (big_nat (int_of_string ("0x" ^ x)))) (String.split_on_char ',' s)
+
 let put_bytes (b : Buffer.t) (l : n list) : unit =
   let a = Array.of_list (List.rev (List.rev_map int_of_n l)) in
   let n = Array.length a in
@@ -71,8 +75,8 @@ let handle (line : string) : string =
           let v = if variant = "original" then original else repaired in
           let (be, ch) = match backend with
             | "M" -> (BFile, [])
-            | "R" -> (BPipe, numlist chunks)
-            | "MF" -> (BFileNoMmap, numlist chunks)
+            | "R" -> (BPipe, oracle_of chunks)
+            | "MF" -> (BFileNoMmap, oracle_of chunks)
             | "PF" -> (BFileNoMmap, [])
             | "P" -> (BPipe, [])
             | "ZR" -> (BPipeStream, [])
@@ -106,7 +110,7 @@ let handle (line : string) : string =
       let rec cycle acc n = if n = 0 then acc else cycle (acc @ reqs) (n - 1) in
       let per = max 1 (List.fold_left (fun a r -> a + int_of_big_nat r) 0 reqs) in
       let all = cycle [] (400 / max 1 (List.length reqs) + total / per + 4 * (List.length plains + 2)) in
-      (match rc_read_all all (rc_open members (numlist chunks) deco) with
+      (match rc_read_all all (rc_open members (oracle_of chunks) deco) with
        | None -> "MODEL-ERROR"
        | Some chunks ->
            let h = ref 7 and tot = ref 0 and late = ref 0 and ended = ref false in
@@ -120,7 +124,7 @@ let handle (line : string) : string =
       (* the reader is ReadCompressed: plain bytes through ReadFactory's header (open_fd) with the dictated read() lengths, or a
          decompressor chain (open_stream); by C18_line_input_blocks the blocks do not depend on which *)
       let data = bytes_of_hex plain in
-      let s = if _comp = "-" then open_fd data (if src = "R" then numlist chunks else []) else open_stream data [] in
+      let s = if _comp = "-" then open_fd data (if src = "R" then oracle_of chunks else []) else open_stream data [] in
       (match line_input (big_nat (int_of_string ("0x" ^ bs))) s with
        | LIOk blocks ->
            let h = ref 7 and tot = ref 0 in
